@@ -442,3 +442,37 @@ Theorem c09_code_site_rtinit_loop : forall m rho h buf a,
 Proof. exact site_rtinit_loop. Qed.
 Print Assumptions c09_code_site_rtinit_loop.
 
+
+(* ---------------------------------------------------------------------------------------------------------------
+   ieee80211_radiotap_iterator_init AS TRANSLATED, THE WHOLE ROUTINE (Proofs/CodeRadiotapInit.v): executable since the translator
+   scales pointer increments by the pointee's size and turns the while loop over the extended present words into an SLoop.
+   For EVERY header buffer, with only the buffer readable: the run ends within 60 + 8 * length steps (no load outside the buffer, no
+   overflow), returns the model's error code exactly when Model/Radiotap.v rt_init refuses (short buffer, version, it_len beyond the
+   buffer, a chain of present words that does not end inside it_len - the loop by induction on the words left), and otherwise
+   returns 0 leaving the model's iterator in the object's members: _max_length, index 0, the first present word, _arg / this_arg
+   after the last present word, _next_bitmap = header + 8 (the increment by ONE uint32_t: C09-n's char pointer gives + 5),
+   the radiotap namespace selected. *)
+From LW Require Import Proofs.CodeSecurity Proofs.CodeRadiotapInit.
+
+Theorem c09_code_rtinit_refines_model : forall buf h, wfbytes buf -> 0 < h -> h + zlen buf < 2 ^ 62 -> zlen buf < 2 ^ 31 ->
+  forall rho vns rns,
+  rho "max_length" = zlen buf -> rho "radiotap_header" = h ->
+  (1 <= zlen buf -> rho "radiotap_header->it_version" = znth buf 0) ->
+  rho "&radiotap_header->it_len" = h + off_ieee80211_radiotap_header__it_len ->
+  rho "&radiotap_header->it_present" = h + off_ieee80211_radiotap_header__it_present ->
+  rho "vns" = vns -> rho "&radiotap_ns" = rns -> 0 <= vns < 2 ^ 64 -> 0 <= rns < 2 ^ 64 ->
+  wp (60 + 8 * Z.to_nat (zlen buf)) (mem_at h buf) rho [] body_ieee80211_radiotap_iterator_init
+     (fun o => match rt_init (rd_strict buf) (zlen buf) with
+               | Done (Err c) => exists rho1 tr1, o = Returned (Some c) rho1 tr1
+               | Done (Ok it) =>
+                   exists rho1 tr1, o = Returned (Some 0) rho1 tr1 /\
+                     rho1 "iterator->_rtheader" = h /\ rho1 "iterator->_max_length" = r_max it /\
+                     rho1 "iterator->_arg_index" = r_idx it /\ rho1 "iterator->_bitmap_shifter" = r_shift it /\
+                     (exists a, r_arg it = Some a /\ rho1 "iterator->_arg" = h + a /\ rho1 "iterator->this_arg" = h + a) /\
+                     rho1 "iterator->_next_bitmap" = h + r_nextbm it /\ rho1 "iterator->_reset_on_ext" = b2z (r_reset it) /\
+                     r_ns it = true /\ rho1 "iterator->current_namespace" = rns /\ rho1 "iterator->is_radiotap_ns" = 1 /\
+                     rho1 "iterator->_vns" = vns
+               | _ => False
+               end).
+Proof. exact code_rtinit_refines_model. Qed.
+Print Assumptions c09_code_rtinit_refines_model.
